@@ -332,6 +332,7 @@ package iso7816
 //@        (old(beS(sm.ssc)) + 1 < pow256(len(sm.ssc)) ==> beS(sm.ssc) == old(beS(sm.ssc)) + 1) && (old(beS(sm.ssc)) + 1 >= pow256(len(sm.ssc)) ==> beS(sm.ssc) == 0)
 //@   ensures "counter-steps-back-on-naked-response": len(rApduBytes) == 2 ==> err != nil &&
 //@        (old(beS(sm.ssc)) > 0 ==> beS(sm.ssc) == old(beS(sm.ssc)) - 1) && (old(beS(sm.ssc)) == 0 ==> beS(sm.ssc) == pow256(len(sm.ssc)) - 1)
+//@   proves "decoded-bytes-are-the-response-body": err == nil ==> tlv.src === old(rApduBytes)[:len(rApduBytes) - 2]
 //@   ensures "authenticated": err == nil ==> len(rApduBytes) > 2 && doPresent(old(rApduBytes)[:len(rApduBytes) - 2], 142)
 //@        && doVal(old(rApduBytes)[:len(rApduBytes) - 2], 142) === smMacS(sm.alg, canonKey(sm.alg, sm.ksMac),
 //@             pad2S(cat(sm.ssc, doEnc(old(rApduBytes)[:len(rApduBytes) - 2], 133), doEnc(old(rApduBytes)[:len(rApduBytes) - 2], 135), doEnc(old(rApduBytes)[:len(rApduBytes) - 2], 153)), bsOf(sm.alg)))
